@@ -3,8 +3,7 @@ CONSTANTS
  Reqs = {"r1","r2","r3","r4","r5"}
  Procs <- P5
  Prio <- Pr5
- MachProcs = 3
- MaxP = 7
+ Configs <- C37
  MaxMach = 4
  MaxStops = 2
 INVARIANTS Capacity Conservation NeedAccounting ExclusiveAlone PendingOK PendingIsOutstanding
